@@ -167,11 +167,12 @@ pub fn relabel_with<'a, H: HashFunction, D: SetDataset>(
                 ));
             }
             if let Some(bnid) = component.bnode_id() {
-                state
-                    .b2q
-                    .entry(Rc::from(bnid.as_str()))
-                    .or_default()
-                    .push(quad);
+                let refs = state.b2q.entry(Rc::from(bnid.as_str())).or_default();
+                // a quad is referenced once per blank node,
+                // even if that blank node occurs several times in it
+                if !refs.last().is_some_and(|last| std::ptr::eq(*last, quad)) {
+                    refs.push(quad);
+                }
             }
         }
     }
